@@ -400,6 +400,15 @@ impl<T> ExactSizeIterator for PinnedPoolIterator<'_, T> {
 
 impl<T> FusedIterator for PinnedPoolIterator<'_, T> {}
 
+#[cfg(folo_verif)]
+impl<T: Send + 'static> PinnedPool<T> {
+    /// Verification hook: read-only snapshot of the inner pool's bookkeeping.
+    #[must_use]
+    pub fn verif_probe(&self) -> crate::verif::PoolProbe {
+        self.inner.lock().expect(NEVER_POISONED).verif_probe()
+    }
+}
+
 #[cfg(test)]
 #[cfg_attr(coverage_nightly, coverage(off))]
 mod tests {
